@@ -221,3 +221,65 @@ func H_C04_Subsidy() {
 		zzverif.Reach("zero-subsidy")
 	}
 }
+
+// C04: relative lock-times (BIP68). One version-1/2 transaction spending one confirmed, mature output with an
+// arbitrary sequence number, CSV active: a connected block must satisfy the height-based relative lock
+// (the time-based variant needs the median-time-past of the output's block and is outside this harness).
+func H_C04_BIP68() {
+	zzverif.IntMode()
+	const height = 840000
+	zzverif.Bound("block shape", "coinbase + 1 transaction with 1 input (confirmed, non-coinbase output at an arbitrary earlier height) and 1 output; height 840000 (CSV active); height-based locks only")
+	cheight := zzverif.U32("utxo.height")
+	zzverif.Assume(cheight < height)
+	cval := zzverif.Range64("utxo.value", h_max_money)
+	pid := h_id(0xA1)
+	ch := new(Chain)
+	ch.Unspent = new(utxo.UnspentDB)
+	ch.Unspent.UnwindBufLen = 2560
+	if zzverif.Symbolic() {
+		zzverif.Replace("(*utxo.UnspentDB).UnspentGet", func(db *utxo.UnspentDB, po *btc.TxPrevOut) *btc.TxOut {
+			if po.Hash != pid || po.Vout != 0 {
+				return nil
+			}
+			return &btc.TxOut{Value: cval, BlockHeight: cheight, VoutCount: 1, Pk_script: []byte{0x51}}
+		})
+	} else {
+		rec := &utxo.UtxoRec{TxID: pid, InBlock: cheight, Outs: []*utxo.UtxoTxOut{{Value: cval, PKScr: []byte{0x51}}}}
+		var k utxo.UtxoKeyType
+		copy(k[:], pid[:])
+		ch.Unspent.HashMap[k[0]] = map[utxo.UtxoKeyType]*[]byte{k: utxo.SerializeU(rec, nil)}
+	}
+	script.HookVerifyTxScript = func(pk []byte, c *script.SigChecker, flags uint32) bool { return true }
+	defer func() { script.HookVerifyTxScript = nil }()
+
+	bl := new(btc.Block)
+	bl.Height = height
+	bl.VerifyFlags = script.VER_CSV | script.VER_CLTV | script.VER_P2SH
+	cb := new(btc.Tx)
+	cb.Hash.Hash = h_id(0xC0)
+	cb.TxIn = []*btc.TxIn{{Input: btc.TxPrevOut{Vout: 0xffffffff}, ScriptSig: []byte{1, 1}}}
+	cb.TxOut = []*btc.TxOut{{Value: 0, Pk_script: []byte{0x51}, WasCoinbase: true}}
+	tx := new(btc.Tx)
+	tx.Hash.Hash = h_id(0xD1)
+	tx.Version = 1 + uint32(zzverif.Enum("version-1", 2))
+	seq := zzverif.U32("sequence")
+	tx.TxIn = []*btc.TxIn{{Input: btc.TxPrevOut{Hash: pid, Vout: 0}, ScriptSig: []byte{}, Sequence: seq}}
+	tx.TxOut = []*btc.TxOut{{Value: 0, Pk_script: []byte{0x51}}}
+	bl.Txs = []*btc.Tx{cb, tx}
+	bl.TotalInputs = 1
+	for _, t := range bl.Txs {
+		if t.CheckTransaction() != nil {
+			return
+		}
+	}
+	locked := tx.Version >= 2 && seq&(1<<31) == 0
+	zzverif.Known("C04-bip68-not-enforced", locked)
+	if _, _, e := ch.ProcessBlockTransactions(bl, height, height); e != nil {
+		return
+	}
+	zzverif.Reach("connected")
+	if locked && seq&(1<<22) == 0 {
+		// BIP68: the input may be included in a block of height > coinHeight + lock - 1
+		zzverif.Assert("C04.bip68.height-lock", uint64(cheight)+uint64(seq&0xffff) <= height)
+	}
+}
